@@ -17,7 +17,7 @@ TranslateError.
 import ast, sys, inspect, importlib, textwrap
 from .pyexpr import TranslateError
 
-# python class (module, qualname) -> Coq constructor of C10/Exn.v:exn
+# python class (module, qualname) -> Coq constructor of C10/Exn.v:pyexn
 CLASS_NAMES = [
     ('builtins', 'Exception', 'EException'), ('builtins', 'ValueError', 'EValueError'),
     ('builtins', 'TypeError', 'ETypeError'), ('builtins', 'AttributeError', 'EAttributeError'),
@@ -72,6 +72,26 @@ TRY_SITES = [
     ('unicode_from_bytes', 'spyne.protocol._inbase', 'InProtocolBase.unicode_from_bytes'),
     ('from_base64', 'spyne.model.binary', 'ByteArray.from_base64'),
     ('wsgi_handle_rpc', 'spyne.server.wsgi', 'WsgiApplication.handle_rpc'),
+]
+
+# (coq name, module, qualified function name): every `raise <Fault class>(...)` statement of the
+# function, in source order, as (class, code); a raise of anything else is (EException, [])
+RAISE_SITES = [
+    ('xml_from_element', 'spyne.protocol.xml', 'XmlDocument.from_element'),
+    ('xml_complex_from_element', 'spyne.protocol.xml', 'XmlDocument.complex_from_element'),
+    ('xml_base_from_element', 'spyne.protocol.xml', 'XmlDocument.base_from_element'),
+    ('xml_unicode_from_element', 'spyne.protocol.xml', 'XmlDocument.unicode_from_element'),
+    ('xml_byte_array_from_element', 'spyne.protocol.xml', 'XmlDocument.byte_array_from_element'),
+    ('xml_enum_from_element', 'spyne.protocol.xml', 'XmlDocument.enum_from_element'),
+    ('xml_validate_lxml', 'spyne.protocol.xml', 'XmlDocument._XmlDocument__validate_lxml'),
+    ('hier_deserialize', 'spyne.protocol.dictdoc.hier', 'HierDictDocument.deserialize'),
+    ('hier_doc_to_object', 'spyne.protocol.dictdoc.hier', 'HierDictDocument._doc_to_object'),
+    ('hier_from_dict_value', 'spyne.protocol.dictdoc.hier', 'HierDictDocument._from_dict_value'),
+    ('hier_validate', 'spyne.protocol.dictdoc.hier', 'HierDictDocument.validate'),
+    ('dict_check_freq', 'spyne.protocol.dictdoc._base', 'DictDocument._check_freq_dict'),
+    ('json_ret_bool', 'spyne.protocol.json', 'JsonDocument._ret_bool'),
+    ('yaml_ret_bool', 'spyne.protocol.yaml', 'YamlDocument._ret_bool'),
+    ('msgpack_ret_bool', 'spyne.protocol.msgpack', 'MessagePackDocument._ret_bool'),
 ]
 
 # guards: (coq name, module, function, normalised source of the test, kind)
@@ -245,6 +265,22 @@ class Translator(object):
         visit(fn)
         return out
 
+    def raises(self, modname, qualname):
+        mod, tree = self.module(modname)
+        fn = find_function(tree, qualname.replace('_XmlDocument__', '__'))
+        out = []
+        where = '%s.%s' % (modname, qualname)
+        def visit(node):
+            for ch in ast.iter_child_nodes(node):
+                if isinstance(ch, (ast.FunctionDef, ast.Lambda, ast.ClassDef)):
+                    continue
+                if isinstance(ch, ast.Raise):
+                    fr = self.fault_of_raise(mod, ch, where)
+                    out.append('(%s, %s)' % (fr[0], gtext(fr[1])) if fr else '(EException, [])')
+                visit(ch)
+        visit(fn)
+        return out
+
     def guard(self, modname, qualname, test_src, kind):
         mod, tree = self.module(modname)
         fn = find_function(tree, qualname)
@@ -361,14 +397,14 @@ def generate(repo):
            'From SpyneV Require Import C10.Exn.', 'Open Scope Z_scope.', '']
     # class hierarchy
     out.append('(* proper ancestors among the modelled classes, from the live __mro__ *)')
-    out.append('Definition exn_bases (e : exn) : list exn :=\n  match e with')
+    out.append('Definition exn_bases (e : pyexn) : list pyexn :=\n  match e with')
     for cls, coq in t.cls2coq.items():
         bases = [t.cls2coq[b] for b in cls.__mro__[1:] if b in t.cls2coq]
         out.append('  | %s => %s' % (coq, glist(bases)))
     out.append('  | EOutOfFuel => []\n  end.')
     out.append('')
     out.append('(* CODE of the Fault subclasses *)')
-    out.append('Definition fault_code (e : exn) : text :=\n  match e with')
+    out.append('Definition fault_code (e : pyexn) : text :=\n  match e with')
     for cls, coq in t.cls2coq.items():
         if issubclass(cls, t.fault) and cls is not t.fault:
             code = getattr(cls, 'CODE', None)
@@ -380,13 +416,17 @@ def generate(repo):
     # what the names JSONDecodeError / RecursionError are bound to in spyne.protocol.json
     js = importlib.import_module('spyne.protocol.json')
     out.append('(* spyne.protocol.json: the class the name JSONDecodeError is bound to *)')
-    out.append('Definition json_JSONDecodeError : exn := %s.' % t.coq_class(js.JSONDecodeError, 'json.JSONDecodeError'))
+    out.append('Definition json_JSONDecodeError : pyexn := %s.' % t.coq_class(js.JSONDecodeError, 'json.JSONDecodeError'))
     out.append('')
     for name, mod, qn in TRY_SITES:
         ts = t.tries(mod, qn)
         out.append('(* %s.%s *)' % (mod, qn))
         out.append('Definition %s_tries : list (list handler) :=\n  %s.' % (name, glist(['\n    ' + x for x in ts])))
         out.append('')
+    for name, mod, qn in RAISE_SITES:
+        out.append('(* %s.%s *)' % (mod, qn))
+        out.append('Definition %s_raises : list (pyexn * text) :=\n  %s.' % (name, glist(t.raises(mod, qn))))
+    out.append('')
     for name, mod, qn, test, kind in GUARDS:
         out.append('(* %s.%s: if %s: %s *)' % (mod, qn, test[:70], kind))
         out.append('Definition %s : guard := %s.' % (name, t.guard(mod, qn, test, kind)))
